@@ -935,6 +935,12 @@ pub(crate) async fn prepare_request(
     };
 
     let (operation_name, mut operation) = operation.map_err(|err| vec![err])?;
+    if request.disable_mutation && operation.node.ty == OperationType::Mutation {
+        return Err(vec![ServerError::new(
+            "Mutation operations are not allowed for this request (HTTP GET only supports queries).",
+            Some(operation.pos),
+        )]);
+    }
 
     crate::validation::check_variable_values(registry, &operation.node, &request.variables)?;
 
